@@ -67,8 +67,17 @@ func (r c18Ref) key() string {
 // bytes of, or an extension of, the usual test UIDs.
 var c18UIDLen = 16
 
+// c18UIDKind "urlsafe": UIDs whose URL-safe base64 form (the one the API's paths use) contains '-' and
+// '_' and whose standard form contains '+' and '/' - about half of all random UIDs do.
+var c18UIDKind = ""
+
 func c18uid(u int) []byte {
 	b := uidOf(u)
+	if c18UIDKind == "urlsafe" {
+		b = append([]byte{}, b...)
+		b[0], b[1], b[2] = 0xfb, 0xef, 0xbe // "----" / "++++"
+		b[3], b[4], b[5] = 0xff, 0xff, 0xff // "____" / "////"
+	}
 	if c18UIDLen <= 16 {
 		return b[:c18UIDLen]
 	}
@@ -395,7 +404,8 @@ func init() {
 		depth := c.PI("depth", 2)
 		full := c.P("alphabet", "full") == "full"
 		c18UIDLen = c.PI("uidlen", 16)
-		defer func() { c18UIDLen = 16 }()
+		c18UIDKind = c.P("uidkind", "")
+		defer func() { c18UIDLen, c18UIDKind = 16, "" }()
 		shard, shards := c.PI("shard", 0), c.PI("shards", 1)
 		dir := fmt.Sprintf("/dev/shm/vx-c18-%d", os.Getpid())
 		os.RemoveAll(dir)
@@ -495,6 +505,8 @@ func init() {
 		for _, l := range []string{"4", "20"} {
 			jobs = append(jobs, vx.Job{Scenario: "adminapi.bfs", Params: vx.P("depth", "2", "alphabet", "reduced", "uidlen", l), Weight: 4})
 		}
+		// UIDs whose base64 forms differ between the URL-safe and the standard alphabet
+		jobs = append(jobs, vx.Job{Scenario: "adminapi.bfs", Params: vx.P("depth", "2", "alphabet", "reduced", "uidkind", "urlsafe"), Weight: 4})
 		// the API through a real admin session, with fast and slow database operations
 		jobs = append(jobs, vx.Job{Scenario: "adminapi.session", Weight: 3})
 		// "fields not mentioned in an update keep their value" while the server is running: a partial update
